@@ -168,6 +168,40 @@ pub fn rec_bias(a: &Args, out: &mut Out) {
             }
         }
     }
+    // more than 31 entries for ONE satellite (recognised signals, necessarily repeated): contiguous, in separated runs,
+    // alternating with another satellite, and in numbers that wrap an 8-bit as well as the 5-bit counter
+    for num in [1059u16, 1065] {
+        let table: Vec<(u8, char)> = if num == 1059 { SSR_GPS.to_vec() } else { SSR_GLO.to_vec() };
+        let e = |s: u8, i: usize| (s, table[i % table.len()].0, table[i % table.len()].1, (i as i32 % 4000) - 2000);
+        for n in [32usize, 33, 40, 63, 64, 65, 255, 256, 257, 270, 287, 288, 300, 390] {
+            let es: Vec<(u8, u8, char, i32)> = (0..n).map(|i| e(7, i)).collect();
+            emit(&mut r, out, num, &es, "over31");
+        }
+        for (a, b, c) in [(20usize, 1usize, 20usize), (31, 1, 1), (16, 3, 17), (31, 5, 31), (1, 1, 32)] {
+            let mut es: Vec<(u8, u8, char, i32)> = (0..a).map(|i| e(7, i)).collect();
+            es.extend((0..b).map(|i| e(9, i)));
+            es.extend((0..c).map(|i| e(7, a + i)));
+            emit(&mut r, out, num, &es, "over31");
+        }
+        for per in [32usize, 33, 40] {
+            let es: Vec<(u8, u8, char, i32)> = (0..2 * per).map(|i| e(if i % 2 == 0 { 3 } else { 12 }, i / 2)).collect();
+            emit(&mut r, out, num, &es, "over31");
+        }
+        for _ in 0..6 {
+            let big = r.gen_range(32..=45usize);
+            let mut es: Vec<(u8, u8, char, i32)> = (0..big).map(|i| e(5, i)).collect();
+            for s in 0..r.gen_range(1..=8u8) {
+                for i in 0..r.gen_range(1..=4usize) {
+                    es.push(e(10 + s, i));
+                }
+            }
+            for i in (1..es.len()).rev() {
+                let j = r.gen_range(0..=i);
+                es.swap(i, j);
+            }
+            emit(&mut r, out, num, &es, "over31");
+        }
+    }
     // 1230: every non-empty subset of the four signals in every order
     let sigs = [(1u8, 'C'), (1, 'P'), (2, 'C'), (2, 'P')];
     let mut perms: Vec<Vec<usize>> = vec![];
